@@ -410,8 +410,16 @@ fn bad_cases() -> Vec<Bad> {
     for style in cooked_styles() {
         let d = style.delim();
         for b in bodies_any {
-            v.push(Bad { src: format!("{}{d}{b}{d}", style.prefix()) });
+            let lit = format!("{}{d}{b}{d}", style.prefix());
+            let ok = if style.bytes { "b'ok'" } else { "'ok'" };
+            v.push(Bad { src: lit.clone() });
             v.push(Bad { src: format!("{}{d}ok{b}ok{d}", style.prefix()) });
+            // wherever the literal stands - an operand that is never evaluated included - the program does not compile
+            v.push(Bad { src: format!("true ? {ok} : {lit}") });
+            v.push(Bad { src: format!("false ? {lit} : {ok}") });
+            v.push(Bad { src: format!("false && {lit} == {ok}") });
+            v.push(Bad { src: format!("[{ok}, {lit}]") });
+            v.push(Bad { src: format!("size({lit})") });
         }
         if style.bytes {
             for b in bodies_bytes_only {
